@@ -129,6 +129,50 @@ def run(ctx):
         if dis and not bad:
             l, e, m = dis[0]
             ctx.broken.append(vlib.Broken('correspondence stream budget: engine and model differ', json.dumps({'request': l, 'engine': e, 'model': m, 'count': len(dis)})))
+    budget_zero_sessions(ctx)
+
+ZERO_GOS = ['go movetime 0', 'go wtime 1 btime 1', 'go wtime 20 btime 20', 'go wtime 25 btime 25 movestogo 40', 'go wtime 1500 btime 1500 winc 100 binc 100',
+            'go wtime 900 btime 900 winc 500 binc 500', 'go wtime 3000 btime 3000', 'go wtime 2001 btime 2001', 'go wtime 29 btime 29']
+ZERO_POS = [(1, 'position startpos'), (0, 'position startpos moves e2e4'), (1, 'position fen r3k2r/p1ppqpb1/bn2pnp1/3PN3/1p2P3/2N2Q1p/PPPBBPPP/R3K2R w KQkq - 0 1')]
+
+def budget_zero_sessions(ctx):
+    """A budget is there to be kept: when the budget computed for a `go` is 0 ms the deadline has passed at the search's first poll, so the
+    real main loop must answer at once -- no iteration completes, no info line is printed (the session model says the same).  An engine
+    that computes the right number but treats 0 as 'no limit' searches on without bound: only `go infinite` and depth-limited searches may."""
+    from checks import c13
+    late = c13.LATE
+    todo = []
+    for side, pos in ZERO_POS:
+        for go in ZERO_GOS:
+            todo.append((side, pos, go))
+    budgets = ctx.engine_batch(['go %d %s' % (side, go[3:]) for side, pos, go in todo], shards=1)
+    ran = 0; ties = []
+    for (side, pos, go), b in zip(todo, budgets):
+        try: mt = int(b.split()[1])
+        except Exception: continue
+        if mt != 0: continue
+        script = [(0, pos), (0, go), (late, 'quit')]
+        out = ctx.engine_session(script, extra=7, timeout=120)
+        lines = c13.canon(out); ran += 1
+        infos = [l for l in lines if l.startswith('info ')]
+        nbest = sum(1 for l in lines if l.startswith('bestmove'))
+        if infos or nbest != 1:
+            ctx.violation('C10:zero-budget-not-kept', 'the budget computed for this go is 0 ms, yet the search did not end at its first poll (it went on as if it had no limit)',
+                          {'script (delay_in_polls line)': [f'{d} {l}' for d, l in script], 'budget_reported_by_parse_go': b, 'info_lines_printed': len(infos),
+                           'last_info_line': infos[-1] if infos else None, 'bestmove_lines': nbest, 'request': 'go %d %s' % (side, go[3:])})
+            break
+        if ctx.model_ok:
+            m = ctx.model_batch(['session 7 ## ' + ' ## '.join(f'{d}|{l}' for d, l in script)], shards=1)[0]
+            ml = [x for x in m.split(' ;; ') if x != '']
+            el = list(lines)
+            if ' Exited!' in out and el and el[-1] == ' Exited!': el.append('EXIT')
+            if el != ml: ties.append((script, el, ml))
+    ctx.cov['zero_budget_sessions_through_the_real_main_loop'] = ran
+    ctx.cov['evaluations'] += ran
+    if ties and not ctx.violations:
+        s, el, ml = ties[0]
+        ctx.broken.append(vlib.Broken('correspondence stream zero-budget sessions: engine transcript and session model differ',
+                                      json.dumps({'script': [f'{d} {l}' for d, l in s], 'engine': el[:40], 'model': ml[:40]})))
 
 def replay(ctx, path):
     j = json.load(open(path))
